@@ -629,3 +629,100 @@ theorem sys_file_address4_syntactic (bound : Nat) (oob : Option Nat) (pre post :
   cases hc
 
 end CoreDhcp
+
+/-! ### C17 delivered -/
+
+namespace CoreDhcp
+open Sys
+open Plug (lookup)
+
+section chain2
+variable {Req Resp : Type}
+
+/-- the response a chain returns does not depend on the index the trace starts at -/
+theorem go_fst_idx (req : Req) (l : List (Req → Option Resp → Option Resp × Bool)) :
+    ∀ i j r, (runChain.go req l i r).1 = (runChain.go req l j r).1 := by
+  induction l with
+  | nil => intro i j r; rfl
+  | cons h rest ih =>
+    intro i j r
+    simp only [runChain.go]
+    cases hs : (h req r).2
+    · simp only [Bool.false_eq_true, if_false]
+      exact ih _ _ _
+    · simp only [if_true]
+
+/-- handlers that all hand a response on without stopping: the chain `l1 ++ l2` is `l2` run on what
+`l1` made of the response -/
+theorem go_through (req : Req) (l1 : List (Req → Option Resp → Option Resp × Bool))
+    (hl : ∀ g ∈ l1, ∀ r, ∃ r', g req (some r) = (some r', false)) :
+    ∀ i r, ∃ mid, (runChain.go req l1 i (some r)).1 = some mid ∧
+      ∀ l2, (runChain.go req (l1 ++ l2) i (some r)).1 = (runChain.go req l2 0 (some mid)).1 := by
+  induction l1 with
+  | nil => intro i r; exact ⟨r, rfl, fun l2 => go_fst_idx req l2 i 0 _⟩
+  | cons g rest ih =>
+    intro i r
+    obtain ⟨r', hr'⟩ := hl g (by simp) r
+    obtain ⟨mid, h1, h2⟩ := ih (fun g' hm => hl g' (by simp [hm])) (i + 1) r'
+    refine ⟨mid, ?_, ?_⟩
+    · simp only [runChain.go, hr', Bool.false_eq_true, if_false]
+      exact h1
+    · intro l2
+      simp only [List.cons_append, runChain.go, hr', Bool.false_eq_true, if_false]
+      exact h2 l2
+
+end chain2
+
+/-- a nil response stays nil -/
+theorem go_handle4_none (req : Sys.Req4) (l : List Elem4) (i : Nat) :
+    (runChain.go req (l.map handle4) i none).1 = none := by
+  cases l with
+  | nil => rfl
+  | cons e rest => simp [runChain.go, handle4_none]
+
+theorem sys_C17_delivered4 (bound : Nat) (oob : Option Nat) (pre post : List Elem4) (c : Plug.Cfg4) (req : Sys.Req4)
+    (name : String) (args : List Plug.ArgOracle) (hcfg : Plug.plugSetup4 name args = some (.ok c))
+    (hpre : pre.all neverStops4 = true)
+    (hpost : ∀ e ∈ post, ∀ code ∈ owned4 (.plug c), code ∉ owned4 e)
+    (resp : Sys.Resp4) (peer : BitVec 32) (port : Nat) (ifidx : Option Nat) (l2 : Bool)
+    (hs : serve4 bound oob (pre ++ .plug c :: post) (some req) = .send resp peer port ifidx l2) :
+    ∃ r0 mid out stop, Sys.stub4 req = some r0 ∧
+      (runChain (pre.map handle4) req 0 (some r0)).1 = some mid ∧
+      Plug.plugHandle4 c (viewReq4 req) (viewResp4 mid) = (some out, stop) ∧
+      C17.holds4 c (viewReq4 req) (viewResp4 mid) (some out, stop) = true ∧
+      ∀ code ∈ owned4 (.plug c), Plug.lookup code resp.opts = Plug.lookup code out.opts := by
+  obtain ⟨r0, h0, hc⟩ := serve4_send bound oob _ req resp peer port ifidx l2 hs
+  rw [runChain_eq] at hc
+  simp only [List.map_append, List.map_cons] at hc
+  obtain ⟨mid, hm1, hm2⟩ := go_through req (pre.map handle4) (by
+      intro g hg r
+      obtain ⟨e, he, rfl⟩ := List.mem_map.mp hg
+      exact sys_neverStops4 e (List.all_eq_true.mp hpre e he) req r) 0 r0
+  rw [hm2] at hc
+  simp only [runChain.go] at hc
+  rw [handle4_plug] at hc
+  have h17 := c17_builtin4 name args c (viewReq4 req) (viewResp4 mid) hcfg
+  cases hp : Plug.plugHandle4 c (viewReq4 req) (viewResp4 mid) with
+  | mk o stop =>
+    rw [hp] at hc h17
+    cases o with
+    | none =>
+      exfalso
+      dsimp only at hc
+      cases stop
+      · simp [go_handle4_none] at hc
+      · simp at hc
+    | some out =>
+      refine ⟨r0, mid, out, stop, h0, by rw [runChain_eq]; exact hm1, hp, h17, ?_⟩
+      intro code hcode
+      dsimp only at hc
+      cases stop
+      · simp only [Bool.false_eq_true, if_false] at hc
+        have hinv := chain4_inv post req (putResp4 mid out) resp
+          (by rw [runChain_eq, go_fst_idx req _ 0 (0 + 1)]; exact hc)
+        exact hinv.2.2.2.2.2.2 code (fun e he => hpost e he code hcode)
+      · simp only [if_true] at hc
+        cases hc
+        rfl
+
+end CoreDhcp
